@@ -42,6 +42,8 @@ NORMALIZATION_PAIRS = [("caf\u00e9", "cafe\u0301"), ("\u00c5ngstr\u00f6m", "A\u0
 # compatibility characters that turn into '/', '.', '..', '\\', blanks or ASCII under NFKC/NFKD
 COMPAT_NAMES = ["a\uff0fb", "\u2024\u2024", "\uff0e\uff0e\uff0fup", "\uff3cback", "\ufe52dot", "\u3000wide space\u3000",
                 "\u00a0nbsp\u00a0", "\ufb01ligature", "\uff11\uff12", "x\u2025y", "\u2024hidden", "\u2215div", "a\u2044b"]
+ENCODING_SPELLINGS = ["utf8", "utf_8", "UTF-8", "Utf8", "utf-8-sig", "utf-16", "utf-16-le", "utf_16_be", "utf-32", "U8",
+                      "iso8859-15", "ISO-8859-1", "latin_1", "cp437", "koi8-r", "mac-roman", "us-ascii"]
 NAME_ATOMS = ["My", "Playlist", "Vol", "2", ".", ".", " ", "/", "|", "ä", "☃", "é", "x", "Mix", "-", "_", "#", "?", "%",
               "&", "m3u", "m3u8", ",", "Ω", " ", "日本", "a", "B"]
 NAME_FIXED = ["My.Playlist", "Vol. 2", "a/b", ".hidden", "x.", "ä ö", "☃", " lead", "trail ", "a.b.c", "plain",
@@ -313,7 +315,9 @@ def provider_sequences(chk):
     for ci in range(n_cases):
         rng = chk.rng
         ext = rng.choice([".m3u8", ".m3u8", ".m3u"])
-        enc = rng.choice(["latin-1", "utf-8", "cp1252", "ascii"])
+        # [m3u] default_encoding: any codec name Python knows, in any spelling
+        enc = rng.choice(["latin-1", "utf-8", "cp1252", "ascii"] + ENCODING_SPELLINGS)
+        chk.dist("provider:default_encoding=" + enc)
         root = Path(os.path.realpath(tempfile.mkdtemp(prefix="verif-c19-")))
         try:
             provider = files_child.make_provider({"ext": ext, "encoding": enc}, root)
@@ -415,10 +419,15 @@ def monitors(chk, provider, step, ext, enc, ci):
         # (b) round trip through lookup
         tracks = step.get("tracks", [])
         if all(py_line_safe(t) for t in tracks) and all(through(u, wenc, fenc) == u and through(n, wenc, fenc) == n for u, n in tracks):
-            back = provider.lookup(pl.uri)
-            got = None if back is None else [(t.uri, t.name) for t in back.tracks]
+            try:
+                back = provider.lookup(pl.uri)
+                got = None if back is None else [(t.uri, t.name) for t in back.tracks]
+            except Exception as e:  # noqa: BLE001
+                back, got = None, "raise:" + type(e).__name__
             if got != tracks or back.name != pl.name or back.uri != pl.uri:
-                chk.monitor_failure("save_lookup", {"call": kind}, "saved playlist does not read back identically",
+                chk.monitor_failure("save_lookup", {"call": kind, "read_back": "raises" if isinstance(got, str) else "differs"},
+                                    "saved playlist does not read back identically"
+                                    + (f" (lookup {got})" if isinstance(got, str) else ""),
                                     case | {"read_back": got})
         # (c) listed exactly once
         uris = [r.uri for r in provider.as_list()]
@@ -461,7 +470,7 @@ def distinct_names_stage(chk):
     pairs = list(NORMALIZATION_PAIRS) + [("a\uff0fb", "a/b"), ("\uff11", "1"), ("x\u3000y", "x y"), ("\ufb01", "fi"),
                                          ("\u2024", "."), ("A", "a")]
     for a, b in pairs:
-        for ext, enc in ((".m3u8", "latin-1"), (".m3u", "utf-8")):
+        for ext, enc in ((".m3u8", "latin-1"), (".m3u", "utf-8"), (".m3u", "utf_8")):
             for how in ("create", "rename"):
                 root = Path(os.path.realpath(tempfile.mkdtemp(prefix="verif-c19-")))
                 try:
